@@ -426,6 +426,10 @@ func tkzIsNeighborLT(tkz Tokenizer) bool {
 	return isNeighborLT(tkz.buf, tkz.current)
 }
 
+func tkzCurIsNeighborOfPrev(tkz Tokenizer) bool {
+	return isNeighborOfPrev(tkz.buf, tkz.current)
+}
+
 func tkzToFPosInfo(tkz Tokenizer) FilePosInfo {
 	return PosToFilePosInfo(tkz.buf, tkz.current.begin)
 }
